@@ -200,6 +200,33 @@ def build():
     one(r"let\s+ZoneRecordData::Soa\(\s*soa\s*\)\s*=\s*record\.into_data\(\)\s*else\s*\{\s*return\s+Err\(\s*Error::NotValidXfrResponse", inn, "Inner::new SOA test")
     defs.append(("xfr_dispatch_shape", "bool", "true"))
 
+    # --- dig printer control flow, get_last_additional, RecordIter
+    dg = strip_comments(read("src/base/dig_printer.rs"))
+    fm = fn_body(dg, "fmt", after="impl<Octs: AsRef<[u8]>> fmt::Display for DigPrinter")
+    one(r"let\s+section\s*=\s*questions\.answer\(\)\.unwrap\(\)\s*;", fm, "dig answer().unwrap()")
+    if len(re.findall(r"let\s+section\s*=\s*section\.next_section\(\)\.unwrap\(\)\.unwrap\(\)\s*;", fm)) != 2:
+        raise GenError("dig printer: expected two next_section().unwrap().unwrap()")
+    if len(re.findall(r"writeln!\(\s*f\s*,\s*\"; <invalid message>\"\s*\)\?\s*;\s*return\s+Ok\(\(\)\)\s*;", fm)) != 4:
+        raise GenError("dig printer: expected four early returns on an invalid item")
+    m = one(r"if\s+counts\.arcount\(\)\s*>\s*(\d+)\s*\|\|\s*\(\s*opt\.is_none\(\)\s*&&\s*counts\.arcount\(\)\s*>\s*(\d+)\s*\)", fm, "dig additional condition")
+    defs.append(("dig_ar_with_opt_gt", "N", N(int(m.group(1)))))
+    defs.append(("dig_ar_without_opt_gt", "N", N(int(m.group(2)))))
+    ms2 = re.findall(r"if\s+counts\.(qdcount|ancount|nscount)\(\)\s*>\s*(\d+)\s*\{", fm)
+    if [x[0] for x in ms2] != ["qdcount", "ancount", "nscount"] or len(set(x[1] for x in ms2)) != 1:
+        raise GenError("dig printer: section guards changed: %r" % (ms2,))
+    defs.append(("dig_section_gt", "N", N(int(ms2[0][1]))))
+    one(r"if\s+item\.rtype\(\)\s*!=\s*Rtype::OPT\s*\{\s*write_record_item", fm, "dig OPT filter")
+    gl = fn_body(ms_, "get_last_additional")
+    m = one(r"match\s+section\.count\s*\{\s*Err\(_\)\s*=>\s*return\s+None\s*,\s*Ok\((\d+)\)\s*=>\s*return\s+None\s*,\s*Ok\((\d+)\)\s*=>\s*break\s*,", gl, "get_last_additional arms")
+    defs.append(("last_none", "N", N(int(m.group(1)))))
+    defs.append(("last_one", "N", N(int(m.group(2)))))
+    ri = fn_body(ms_, "next", after="impl<'a, Octs, Data> Iterator for RecordIter<'a, Octs, Data>")
+    one(r"if\s+self\.in_only\s*&&\s*record\.class\(\)\s*!=\s*Class::IN\s*\{\s*continue\s*;", ri, "RecordIter in_only filter")
+    one(r"Ok\(Some\(record\)\)\s*=>\s*return\s+Some\(Ok\(record\)\)\s*,\s*Err\(err\)\s*=>\s*return\s+Some\(Err\(err\)\)\s*,\s*Ok\(None\)\s*=>\s*\{\s*\}", ri, "RecordIter arms")
+    cp = fn_body(ms_, "copy_records")
+    if len(re.findall(r"let\s+rr\s*=\s*rr\?\s*;", cp)) != 3 or len(re.findall(r"source\.next_section\(\)\?\.unwrap\(\)", cp)) != 2:
+        raise GenError("copy_records: loop shape changed")
+
     # --- record.rs: fixed part skipped by parse_rdlen
     rs_ = strip_comments(read("src/base/record.rs"))
     rl = fn_body(rs_, "parse_rdlen")
